@@ -164,7 +164,7 @@ class ExcelInPython:
 
     def _find_error_in_list(self, flatten_list: List):
         for err_value in filter(lambda cell: cell in ['#NUM!', '#DIV/0!',
-                                                      '#N/A', '#NAME?', ' #NULL!',
+                                                      '#N/A', '#NAME?', '#NULL!',
                                                       '#REF!', '#VALUE!'], flatten_list):
             return err_value
 
